@@ -11,6 +11,7 @@ RULE = (
     "(non-divisors for rejection) x real/complex forms, against an integer reference counter; histories: every sequence of length<=5 (quick) / <=6 (thorough) over "
     "{update(b1),update(b2),update(b3),compute,reset} with three batches of unequal size (exhaustive) plus seeded random histories up to length 200; every permutation and every "
     "2-/3-way split of a fixed data set. Distinct = (metric, input digest / history); non-trivial = at least one differing bit / >=2 updates with unequal batch sizes."
+    " Added after the seeded-fault rounds: batches that exist for one call only (dropped after each call; numpy buffers refilled in place and re-wrapped), four shapes."
 )
 ASSUMPTIONS = ["inputs are 0/1 valued (BER thresholds at 0.5, BLER compares |x-y|>0)", "comparison with the exact fraction to 1 ulp of float32", "StandardMetrics helpers are compared on divisor block sizes only (they truncate otherwise)"]
 REQUIRED = ["ber:one-shot", "bler:one-shot", "symmetric", "ber<=bler<=min(1,B*ber)", "history:compute=reference", "partition independent", "benchmark helpers agree", "reject non-divisor block size"]
